@@ -380,6 +380,7 @@ func runC19(c *an.Ctx) {
 			}
 		}
 		c.Check(okF, "C19.c", "followers-share-result", "followers wait for the in-flight channel (or their own context) and then read the shared result under the mutex", wrapper, sel, "", nil)
+		checkSharedResultSameOptions(c, "C19.c", wrapper)
 	}
 
 	// --- C19.d comparison shapes
